@@ -60,6 +60,8 @@ def monitor(case, log, ctx):
     delivered = {"a": set(), "b": set()}
     resolved = {}
     emitted = {"a": {}, "b": {}}     # seq -> emission index
+    carried = {"a": {}, "b": {}}     # emission index -> message seqs it carried
+    got_msgs = {"a": set(), "b": set()}   # message seqs contained in datagrams the endpoint accepted
     idx = [i for i, l in enumerate(case) if l.startswith(("recv ", "tmo ", "send ", "build "))]
     n = -1
     for rec in log:
@@ -71,9 +73,13 @@ def monitor(case, log, ctx):
                 sends[(rec["e"], int(rec["cb"]))] = rec
         elif rec["op"] == "build" and rec.get("pkt"):
             emitted[rec["e"]][rec["pkt"]["seq"]] = rec["pkt"]["k"]
+            carried[rec["e"]][rec["pkt"]["k"]] = [m[0] for m in rec["pkt"]["msgs"]]
         elif rec["op"] in ("recv", "tmo") and "ev" in rec:
             e = rec["e"]
             peer = "b" if e == "a" else "a"
+            if rec["op"] == "recv" and rec.get("ret") == "T" and rec.get("spec", "").startswith("@") and not rec.get("muts"):
+                src, kk = rec["spec"][1:].split(":")
+                got_msgs[e].update(carried.get(src, {}).get(int(kk), []))
             for ev in rec["ev"]:
                 p = ev.split(":")
                 if p[0] == "dlv":
@@ -94,8 +100,18 @@ def monitor(case, log, ctx):
                     if val:
                         if snd["digest"] not in delivered[peer] and snd["len"] >= 1:
                             if snd["frag"]:
-                                # every fragment datagram was accepted by the peer endpoint (that is what the property asks for);
-                                # the peer purged an incomplete reassembly context meanwhile - a C05 matter (known finding there)
+                                # fragments of an unretried send keep their message numbers: the peer endpoint must have accepted a
+                                # datagram carrying each of them (then a purged reassembly context is a C05 matter, known finding there)
+                                if snd["retry"] == 0:
+                                    first, last = snd["mseq_before"], snd["mseq_after"]
+                                    cnt = (last - first) % 65535
+                                    need = [((first + i) % 65535) + 1 if False else ((first - 1 + i) % 65535) + 1 for i in range(1, cnt + 1)]
+                                    missing = [m for m in need if m not in got_msgs[peer]]
+                                    if missing:
+                                        ctx.failure("true-but-fragment-never-accepted",
+                                                    "fragmented send %d of %s reported True but the peer never accepted fragment message(s) %s" %
+                                                    (cid, e, missing[:4]), {"case": case, "at": at})
+                                        return
                                 ctx.count("true-with-purged-reassembly-context(C05)")
                             else:
                                 ctx.failure("true-before-peer-accepted", "callback %d of %s reported True but the peer never accepted the message" %
